@@ -84,6 +84,12 @@ def parseOp (t : List String) : Option Op :=
   | some "tok_send" => some (.tokSend (n 1) (n 2) (n 3) (n 4) (parseHook (s 5)))
   | some "tok_inc" => some (.tokIncAllow (n 1) (n 2) (n 3) (n 4))
   | some "tok_burn" => some (.tokBurn (n 1) (n 2) (n 3))
+  -- third-party allowance spending: tok_xfer_from <t> <spender> <owner> <dst> <amt>, tok_send_from <t> <spender> <owner>
+  -- <dst> <amt> <hook>, tok_burn_from <t> <spender> <owner> <amt>; tok_dec <t> <owner> <spender> <amt>
+  | some "tok_xfer_from" => some (.tokTransferFrom (n 1) (n 2) (n 3) (n 4) (n 5))
+  | some "tok_send_from" => some (.tokSendFrom (n 1) (n 2) (n 3) (n 4) (n 5) (parseHook (s 6)))
+  | some "tok_burn_from" => some (.tokBurnFrom (n 1) (n 2) (n 3) (n 4))
+  | some "tok_dec" => some (.tokDecAllow (n 1) (n 2) (n 3) (n 4))
   | some "pair_provide" =>
     some (.pair (n 1) (n 2) (parseCoins (s 3))
       (.provide (parseAsset (s 4)) (n 5) (parseAsset (s 6)) (n 7) (optN (s 8)) (optN (s 9))))
@@ -212,7 +218,8 @@ def routeTrace (w : World) (to : Nat) : List (Asset × Asset) → List (Nat × N
 /-- which property's "… fails and nothing changes" clause a rejected call that changed something violates -/
 def atomicityProp (op : Op) : String :=
   match op with
-  | .router _ _ (.swapOps ..) | .router _ _ (.receive ..) | .tokSend _ _ _ _ (.routerOps ..) => "C11"
+  | .router _ _ (.swapOps ..) | .router _ _ (.receive ..) | .tokSend _ _ _ _ (.routerOps ..)
+  | .tokSendFrom _ _ _ _ _ (.routerOps ..) => "C11"
   | .pair _ _ _ (.swap ..) | .pair _ _ _ (.provide ..) => "C09"
   | _ => "C14"
 
@@ -262,6 +269,8 @@ def obsWindowSwap (pd : Pending) (st : WorldSt) : Option (List Nat) :=
   | .pair _ p _ (.receive _ amt (.swap offer _ _ _ _)) => one p offer amt []
   | .tokSend _ _ d amt (.swap offer _ _ _ _) => if st.pairsSeen.contains d then one d offer amt [] else some []
   | .tokSend _ _ _ _ (.routerOps ..) => none
+  | .tokSendFrom _ _ _ d amt (.swap offer _ _ _ _) => if st.pairsSeen.contains d then one d offer amt [] else some []
+  | .tokSendFrom _ _ _ _ _ (.routerOps ..) => none
   | .router .. => none
   | _ => some []
 
@@ -293,6 +302,17 @@ def touched (st : WorldSt) (op : Op) : List Nat :=
       | .assertMin _ _ _ _ => []
       | .receive f _ h => [f] ++ (match h with | .routerOps _ _ to => to.toList ++ allPairs | _ => []))
   | .factory s _ _ => [s, st.w.facAddr]
+  -- a spender moving an owner's tokens with its allowance: the spender, the owner (it consented by granting the
+  -- allowance), the destination, and for `SendFrom` whatever the `Send` hook touches
+  | .tokTransferFrom _ sp o d _ => [sp, o, d]
+  | .tokBurnFrom _ sp o _ => [sp, o]
+  | .tokDecAllow _ o _ _ => [o]
+  | .tokSendFrom _ sp o d _ h =>
+    [sp, o, d] ++ (match h with
+      | .swap _ _ _ _ to => to.toList
+      | .withdraw => lpOf d
+      | .routerOps _ _ to => to.toList ++ allPairs ++ [st.w.router]
+      | .garbage => [])
 
 def fails (p note : String) (b : Bool) : List (String × String) := if b then [] else [(p, note)]
 
@@ -338,6 +358,7 @@ def oracles (st : WorldSt) (pd : Pending) (post : Bool := false) : List (String 
       let sw : Option (Nat × Asset × Nat × Option Nat × Option Nat × List (Nat × Nat)) := match pd.op with
         | .pair _ p funds (.swap offer amt b m _) => some (p, offer, amt, b, m, funds)
         | .tokSend _ _ d amt (.swap offer _ b m _) => if st.pairsSeen.contains d then some (d, offer, amt, b, m, []) else none
+        | .tokSendFrom _ _ _ d amt (.swap offer _ b m _) => if st.pairsSeen.contains d then some (d, offer, amt, b, m, []) else none
         | _ => none
       match sw with
       | some (p, offer, amt, belief, msO, funds) =>
@@ -386,13 +407,15 @@ def oracles (st : WorldSt) (pd : Pending) (post : Bool := false) : List (String 
       | .pair _ _ _ (.swap _ _ _ _ t) => t.toList
       | .pair _ _ _ (.receive _ _ h) => h.receivers
       | .tokSend _ _ _ _ h => h.receivers
+      | .tokSendFrom _ _ _ _ _ h => h.receivers
       | .router _ _ (.swapOps _ _ t) => t.toList
       | .router _ _ (.swapOp _ _ t) => t.toList
       | .router _ _ (.receive _ _ h) => h.receivers
       | _ => []
     let actor := actorOf pd.op
     for (a, who, d) in changedBal do
-      if rcvs.contains who && who ≠ actor && !st.pairsSeen.contains who && who ≠ st.w.router && who ≠ st.w.facAddr
+      if rcvs.contains who && who ≠ actor && !(ownersOf pd.op).contains who && !st.pairsSeen.contains who
+         && who ≠ st.w.router && who ≠ st.w.facAddr
          && (match pd.op with | .pair _ _ _ (.receive f _ _) => who ≠ f | .router _ _ (.receive f _ _) => who ≠ f | _ => true)
          && d < 0 then
         out := out ++ [("C07", s!"balance of the designated receiver {who} in {showAsset a} fell by {-d}")]
@@ -400,18 +423,21 @@ def oracles (st : WorldSt) (pd : Pending) (post : Bool := false) : List (String 
     -- its balance of any *other* asset must not move (unless it is the designated receiver)
     let lpOp := match pd.op with
       | .tokSend _ _ _ _ .withdraw => true
+      | .tokSendFrom _ _ _ _ _ .withdraw => true
       | .pair _ _ _ (.provide ..) => true
       | .pair _ _ _ (.receive _ _ .withdraw) => true
       | _ => false
     if lpOp then
       for (a, who, _) in changedBal do
-        if (st.lpFirst.any fun x => x.2 = who) && a ≠ .token who && !rcvs.contains who && who ≠ actor then
+        if (st.lpFirst.any fun x => x.2 = who) && a ≠ .token who && !rcvs.contains who && who ≠ actor
+           && !(ownersOf pd.op).contains who then
           out := out ++ [("C07", s!"balance of the LP token contract {who} in {showAsset a} changed")]
     -- balances are observed for the first eight pairs only: a route that reaches a later pair through the registry moves
     -- coins into an unobserved account, so the sums say nothing then
     let isRouteOp := match pd.op with
       | .router .. => true
       | .tokSend _ _ _ _ (.routerOps ..) => true
+      | .tokSendFrom _ _ _ _ _ (.routerOps ..) => true
       | _ => false
     let assets := if isRouteOp && st.pairsSeen.length > 8 then [] else (changedBal.map (·.1)).eraseDups
     for a in assets do
@@ -423,24 +449,31 @@ def oracles (st : WorldSt) (pd : Pending) (post : Bool := false) : List (String 
         if sum ≠ ds then out := out ++ [("C07", s!"balances of {showAsset a} changed by {sum} but supply by {ds}")]
         match isLpToken st t with
         | none =>
-          let ownBurn := match pd.op with | .tokBurn .. => true | _ => false
+          -- a burn of a holder's tokens: by the holder, or by a spender with its allowance
+          let ownBurn := match pd.op with | .tokBurn .. => true | .tokBurnFrom .. => true | _ => false
           if ds ≠ 0 && !ownBurn then out := out ++ [("C07", s!"supply of non-LP token {t} changed")]
         | some _ =>
           let lpOk := match pd.op with
             | .pair _ _ _ (.provide ..) => true
             | .tokSend _ _ _ _ .withdraw => true
+            | .tokSendFrom _ _ _ _ _ .withdraw => true
             | .pair _ _ _ (.receive _ _ .withdraw) => true
             | .tokBurn .. => true              -- a holder burning its own LP tokens: cw20-base, outside C07
+            | .tokBurnFrom .. => true          -- … or a spender burning them with the holder's allowance
             | _ => false
           if ds ≠ 0 && !lpOk then out := out ++ [("C07", s!"LP supply of {t} changed outside provide/withdraw")]
     -- swap-shaped steps
-    let swapInfo : Option (Nat × Nat × Asset × Nat × Option Nat × List (Nat × Nat) × Option Nat) :=
+    -- `trader` is the sender the pair sees (the default receiver); `payer` is the account the offer comes from: the
+    -- same account, except for `SendFrom`, where the trader is the SPENDER and the tokens come from the OWNER
+    let swapInfo : Option (Nat × Nat × Nat × Asset × Nat × Option Nat × List (Nat × Nat) × Option Nat) :=
       match pd.op with
-      | .pair s p funds (.swap offer amt _ _ to) => some (p, s, offer, amt, to, funds, none)
-      | .tokSend t s d amt (.swap offer _ _ _ to) => if st.pairsSeen.contains d then some (d, s, offer, amt, to, [], some t) else none
+      | .pair s p funds (.swap offer amt _ _ to) => some (p, s, s, offer, amt, to, funds, none)
+      | .tokSend t s d amt (.swap offer _ _ _ to) => if st.pairsSeen.contains d then some (d, s, s, offer, amt, to, [], some t) else none
+      | .tokSendFrom t sp ow d amt (.swap offer _ _ _ to) =>
+        if st.pairsSeen.contains d then some (d, sp, ow, offer, amt, to, [], some t) else none
       | _ => none
     match swapInfo, okSwapVals pd.implRes with
-    | some (p, trader, offer, amt, to, funds, viaTok), some (o, n, s, k) =>
+    | some (p, trader, payer, offer, amt, to, funds, viaTok), some (o, n, s, k) =>
       match pairViewR st p with
       | some v =>
         let ask := if offer = v.a0 then v.a1 else v.a0
@@ -451,7 +484,10 @@ def oracles (st : WorldSt) (pd : Pending) (post : Bool := false) : List (String 
         match viaTok with
          | some t =>
            out := out ++ fails "C02" "hook priced an asset other than the token that was sent" (offer = .token t)
-           let declared := match pd.op with | .tokSend _ _ _ _ (.swap _ a _ _ _) => a | _ => amt
+           let declared := match pd.op with
+             | .tokSend _ _ _ _ (.swap _ a _ _ _) => a
+             | .tokSendFrom _ _ _ _ _ (.swap _ a _ _ _) => a
+             | _ => amt
            out := out ++ fails "C02" "hook amount differs from the cw20 amount sent" (declared = amt)
          | none =>
            match offer with
@@ -465,9 +501,9 @@ def oracles (st : WorldSt) (pd : Pending) (post : Bool := false) : List (String 
           if rcv ≠ p then
             out := out ++ fails "C02" "receiver was not credited exactly the reported return"
               (delta st ask rcv = (n : Int) - (if rcv = trader then (fundsOf funds ask : Int) else 0))
-          if trader ≠ p && trader ≠ rcv then
+          if payer ≠ p && payer ≠ rcv then
             out := out ++ fails "C02" "trader did not pay exactly the offered amount"
-              (delta st offer trader = -((if viaTok.isSome then amt else fundsOf funds offer) : Int))
+              (delta st offer payer = -((if viaTok.isSome then amt else fundsOf funds offer) : Int))
           -- C01 at system level (actual reserves before and after)
           let (r0, r1, _) := poolOf (prevValFirst st s!"pool {p}")
           let (r0', r1', _) := poolOf (curVal st s!"pool {p}")
@@ -484,6 +520,7 @@ def oracles (st : WorldSt) (pd : Pending) (post : Bool := false) : List (String 
           let (belief, msO) : Option Nat × Option Nat := match pd.op with
             | .pair _ _ _ (.swap _ _ b m _) => (b, m)
             | .tokSend _ _ _ _ (.swap _ _ b m _) => (b, m)
+            | .tokSendFrom _ _ _ _ _ (.swap _ _ b m _) => (b, m)
             | _ => (none, none)
           let od := if offer = v.a0 then v.d0 else v.d1
           let rd := if offer = v.a0 then v.d1 else v.d0
@@ -543,11 +580,14 @@ def oracles (st : WorldSt) (pd : Pending) (post : Bool := false) : List (String 
       | _, _ => pure ()
     | _ => pure ()
     -- withdraw
-    let wd : Option (Nat × Nat × Nat × Nat) := match pd.op with
-      | .tokSend t s d amt .withdraw => if st.pairsSeen.contains d then some (t, s, d, amt) else none
+    -- `holder`: whose LP tokens are burnt; `payee`: the sender the pair sees, who is paid the refunds (the holder itself
+    -- for `Send`, the SPENDER for `SendFrom`)
+    let wd : Option (Nat × Nat × Nat × Nat × Nat) := match pd.op with
+      | .tokSend t s d amt .withdraw => if st.pairsSeen.contains d then some (t, s, s, d, amt) else none
+      | .tokSendFrom t sp ow d amt .withdraw => if st.pairsSeen.contains d then some (t, ow, sp, d, amt) else none
       | _ => none
     match wd, pd.implRes.splitOn " " with
-    | some (t, holder, p, a), ["ok", "refund", x0s, x1s] =>
+    | some (t, holder, payee, p, a), ["ok", "refund", x0s, x1s] =>
       match pairViewR st p with
       | some v =>
         let (x0, x1) := (x0s.toNatD, x1s.toNatD)
@@ -557,33 +597,37 @@ def oracles (st : WorldSt) (pd : Pending) (post : Bool := false) : List (String 
         out := out ++ fails "C04" "refund outside the pro-rata bracket" (Spec.c04 r0 a S x0 && Spec.c04 r1 a S x1)
         out := out ++ fails "C07" "LP supply changed by other than the withdrawn amount" (S' + a = S)
         out := out ++ fails "C04" "LP supply / holder balance not reduced by exactly the burned amount"
-          (S' + a = S && delta st (.token v.lp) holder = -(a : Int) + (if v.a0 = .token v.lp then (x0 : Int) else 0) + (if v.a1 = .token v.lp then (x1 : Int) else 0))
-        if holder ≠ p then
+          (S' + a = S && delta st (.token v.lp) holder = -(a : Int) + (if payee = holder && v.a0 = .token v.lp then (x0 : Int) else 0) + (if payee = holder && v.a1 = .token v.lp then (x1 : Int) else 0))
+        if payee ≠ p then
           out := out ++ fails "C04" "holder was not paid exactly the reported refunds"
-            ((v.a0 = .token v.lp || delta st v.a0 holder = x0) && (v.a1 = .token v.lp || delta st v.a1 holder = x1))
+            ((v.a0 = .token v.lp || delta st v.a0 payee = x0) && (v.a1 = .token v.lp || delta st v.a1 payee = x1))
       | none => pure ()
     | _, _ => pure ()
     -- router
-    let rt : Option (Nat × List (Asset × Asset) × Option Nat × Option Nat × Nat × Asset × List (Nat × Nat)) := match pd.op with
+    -- `s`: the sender the router sees (the default recipient); `payer`: the account the input comes from (the same,
+    -- except for `SendFrom`: the SPENDER is the sender, the OWNER pays)
+    let rt : Option (Nat × Nat × List (Asset × Asset) × Option Nat × Option Nat × Nat × Asset × List (Nat × Nat)) := match pd.op with
       | .router s funds (.swapOps ops mn to) =>
         (match ops.head? with
-         | some (o, _) => some (s, ops, mn, to, fundsOf funds o, o, funds)
-         | none => some (s, [], mn, to, 0, .native 0, funds))
-      | .tokSend t s d amt (.routerOps ops mn to) => if d = st.w.router then some (s, ops, mn, to, amt, .token t, []) else none
+         | some (o, _) => some (s, s, ops, mn, to, fundsOf funds o, o, funds)
+         | none => some (s, s, [], mn, to, 0, .native 0, funds))
+      | .tokSend t s d amt (.routerOps ops mn to) => if d = st.w.router then some (s, s, ops, mn, to, amt, .token t, []) else none
+      | .tokSendFrom t sp ow d amt (.routerOps ops mn to) =>
+        if d = st.w.router then some (sp, ow, ops, mn, to, amt, .token t, []) else none
       -- a raw `Receive` sent to the router by anybody: the route runs on whatever the router holds; the default
       -- recipient is the `sender` field of the forged message
       | .router _ _ (.receive f _ (.routerOps ops mn to)) =>
         (match ops.head? with
-         | some (o, _) => some (f, ops, mn, to, 0, o, [])
-         | none => some (f, [], mn, to, 0, .native 0, []))
+         | some (o, _) => some (f, f, ops, mn, to, 0, o, [])
+         | none => some (f, f, [], mn, to, 0, .native 0, []))
       | _ => none
     match rt with
-    | some (s, ops, mn, to, paidAmt, paidAsset, funds) =>
+    | some (s, payer, ops, mn, to, paidAmt, paidAsset, funds) =>
       match ops.getLast? with
       | some (_, target) =>
         let rcv := to.getD s
         -- what the recipient itself paid in the target asset during this transaction
-        let paid : Int := if rcv = s then (fundsOf funds target : Int) + (if funds.isEmpty && paidAsset = target then (paidAmt : Int) else 0) else 0
+        let paid : Int := if rcv = payer then (fundsOf funds target : Int) + (if funds.isEmpty && paidAsset = target then (paidAmt : Int) else 0) else 0
         let got : Int := delta st target rcv + paid
         match mn with
          | some m => out := out ++ fails "C11" s!"route succeeded but recipient got {got} < minimum {m}" (decide ((m : Int) ≤ got))
@@ -614,7 +658,7 @@ def oracles (st : WorldSt) (pd : Pending) (post : Bool := false) : List (String 
                out := out ++ fails "C13" s!"recipient got {got}, router quoted {qres}" (qres = s!"ok {got}")
            | none => pure ()
           for a in routeAssets do
-            if a ≠ target && !(rcv = s && a = paidAsset) then
+            if a ≠ target && !(rcv = payer && a = paidAsset) then
               out := out ++ fails "C13" s!"intermediate asset {showAsset a} reached the recipient" (delta st a rcv = 0)
       | none => out := out ++ [("C13", "an empty route was accepted")]
     | none => pure ()
@@ -669,6 +713,11 @@ def oracles (st : WorldSt) (pd : Pending) (post : Bool := false) : List (String 
        | some v, .swap .. => out := out ++ fails "C14" "swap hook accepted from a caller that is not a cw20 asset of the pair" (v.a0 = .token s || v.a1 = .token s)
        | _, _ => out := out ++ [("C14", "malformed hook accepted")]
     | .tokSend t _ d _ (.swap ..) =>
+      if st.pairsSeen.contains d then
+        match pairViewOf (curVal st s!"pair {d}") with
+        | some v => out := out ++ fails "C14" "swap hook accepted from a token that is not an asset of the pair" (v.a0 = .token t || v.a1 = .token t)
+        | none => pure ()
+    | .tokSendFrom t _ _ d _ (.swap ..) =>
       if st.pairsSeen.contains d then
         match pairViewOf (curVal st s!"pair {d}") with
         | some v => out := out ++ fails "C14" "swap hook accepted from a token that is not an asset of the pair" (v.a0 = .token t || v.a1 = .token t)
@@ -944,7 +993,7 @@ def worldLine (st : WorldSt) (line : String) : WorldSt × List String × String 
            let pd : Pending := { line := line, op := op, kind := kind, implOk := implOk, implRes := impl, wBefore := st0.w,
                                  modelOk := !isFail modelStr }
            let st1 := { st0 with w := w', pending := some pd, changes := [],
-                                 lastSim := if kind == "pair_swap" || kind == "tok_send" then st0.lastSim else none }
+                                 lastSim := if kind == "pair_swap" || kind == "tok_send" || kind == "tok_send_from" then st0.lastSim else none }
            if sameRes then (st1, outs0, fam, v0)
            else
              -- result mismatch: report now; the observations of this step are still read by the oracle, then the
